@@ -1071,6 +1071,22 @@ func handler(c *an.Ctx, wr *watchRoles, rule string) {
 				tested = true
 				return an.ABool(sub), true
 			}
+			// in the world where the event is subscribed the set of subscribed events is not empty
+			if bo, isBo := v.(*ssa.BinOp); isBo && sub {
+				if call, isCall := bo.X.(*ssa.Call); isCall {
+					if b, isB := call.Call.Value.(*ssa.Builtin); isB && b.Name() == "len" && len(call.Call.Args) == 1 &&
+						(an.FieldProv(call.Call.Args[0]) == "Watcher.events" || an.FieldProv(st.Root(call.Call.Args[0])) == "Watcher.events") {
+						if k, isK := an.ConstInt(bo.Y); isK && k == 0 {
+							switch bo.Op {
+							case token.EQL, token.LEQ:
+								return an.ABool(false), true
+							case token.NEQ, token.GTR:
+								return an.ABool(true), true
+							}
+						}
+					}
+				}
+			}
 			return an.AVal{}, false
 		}
 		ex.Effect = func(in ssa.Instruction, st *an.State) string {
